@@ -90,11 +90,14 @@ class C16(Prop):
         "roundtrip", "safe_restore_keeps_old_on_error", "restoreObject_error_keeps_variable", "save_atomic",
         "save_complete", "save_atomic_failure", "statics_and_objects_not_persisted",
         "saveObject_writes_each_nonstatic_variable_its_own_value", "saveLines_spec", "saveLines_sub", "findGlobal_flat",
-        "cns_flat", "restoreObjectT_flat", "object_roundtrip")]
+        "cns_flat", "restoreObjectT_flat", "object_roundtrip", "object_roundtrip_noclear", "size_overheads_suffice",
+        "saveEscaped_sub_sizeEscaped", "restore_swap_inverts_save", "restore_swap_sites_agree",
+        "save_escapes_quote_backslash_cr", "tmpName_ne_file", "save_failure_leaves_no_tmp", "save_success_leaves_no_tmp")]
     witness_theorems = ["NV.C16.Witness." + t for t in (
         "float_keys_collapse", "roundtripFloatKeys_Full_false", "cr_round_trips", "stray_byte_in_array_ok",
         "inf_is_written_as_number", "same_name_saved", "same_name_variables")]
-    consts = [("maxSaveSvalueDepth", "MAX_SAVE_SVALUE_DEPTH"), ("nameStatic", "NAME_STATIC")]
+    consts = [("maxSaveSvalueDepth", "MAX_SAVE_SVALUE_DEPTH"), ("nameStatic", "NAME_STATIC"),
+              ("saveExtLen", "sizeof(SAVE_EXTENSION) - 1"), ("saveExt0", "SAVE_EXTENSION[0]"), ("saveExt1", "SAVE_EXTENSION[1]")]
     const_headers = ["lib/efuns/options.h", "lib/lpc/program.h"]
     quick_n = 1200
     thorough_n = 20000
@@ -170,6 +173,55 @@ class C16(Prop):
             raise X.TieBroken("site:save_svalue/swap", "LF/CR substitution of save_svalue not recognised")
         tr = {"\\n": 10, "\\r": 13}
         swap_from, swap_to = tr.get(m.group(1), ord(m.group(1)[-1])), tr.get(m.group(2), ord(m.group(2)[-1]))
+        # additive constants of svalue_save_size, per case of its switch
+        whole = section("size_t svalue_save_size", "void save_svalue", "svalue_save_size")
+
+        def case_body(label, nxt):
+            i = whole.find(label)
+            j = whole.find(nxt, i + 1) if i >= 0 else -1
+            if i < 0 or j < 0:
+                raise X.TieBroken("site:svalue_save_size/" + label, "case not found")
+            return whole[i:j]
+
+        def const(body, pat, site):
+            mm = re.search(pat, body)
+            if not mm:
+                raise X.TieBroken("site:svalue_save_size/" + site, "return statement not recognised")
+            return int(mm.group(1))
+        sizes = {
+            "sizeStr": const(case_body("case T_STRING", "case T_ARRAY"), r"return\s+(\d+)\s*\+\s*size\s*;", "T_STRING"),
+            "sizeArr": const(case_body("case T_ARRAY", "case T_CLASS"), r"return\s+size\s*\+\s*(\d+)\s*;", "T_ARRAY"),
+            "sizeCls": const(case_body("case T_CLASS", "case T_MAPPING"), r"return\s+size\s*\+\s*(\d+)\s*;", "T_CLASS"),
+            "sizeMap": const(case_body("case T_MAPPING", "case T_NUMBER"), r"return\s+size\s*\+\s*(\d+)\s*;", "T_MAPPING"),
+            "sizeInt": const(case_body("case T_NUMBER", "case T_REAL"), r"return\s+len\s*\+\s*(\d+)\s*;", "T_NUMBER"),
+            "sizeReal": const(case_body("case T_REAL", "default:"), r"return\s+save_real_text\s*\([^)]*\)\s*\+\s*(\d+)\s*;", "T_REAL"),
+            "sizeOther": const(whole[whole.find("default:"):], r"return\s+(\d+)\s*;", "default"),
+        }
+        # restore side of the LF/CR substitution: six sites in three functions
+        mapc = open(os.path.join(E.REPO, "lib/lpc/mapping.c")).read()
+        bodies = [section("int restore_string (char *val", "int restore_svalue", "restore_string"),
+                  section("static int restore_interior_string", "#define MAX_SAVE_EXPONENT", "restore_interior_string")]
+        i = mapc.find("int restore_hash_string (char **val")
+        j = mapc.find("svalue_to_int", i)
+        if i < 0 or j < 0:
+            raise X.TieBroken("site:restore_hash_string", "cannot locate restore_hash_string in lib/lpc/mapping.c")
+        bodies.append(mapc[i:j])
+        lit = {"\\r": 13, "\\n": 10}
+        sites = []
+        for b in bodies:
+            a1 = re.findall(r"case\s+'(\\.)':\s*\{?\s*\*\(cp - 1\)\s*=\s*'(\\.)';", b)
+            a2 = re.findall(r"if\s*\(c == '(\\.)'\)\s*(?:c\s*=\s*)?\*newp\+\+\s*=\s*'(\\.)';", b)
+            if len(a1) != 1 or len(a2) != 1:
+                raise X.TieBroken("site:restore/swap", "CR/LF substitution sites of the restore functions not recognised")
+            sites += [(lit.get(x, -1), lit.get(y, -1)) for x, y in a1 + a2]
+        agree = all(t == sites[0] for t in sites)
+        mv = re.search(r"char\s+var\[(\d+)\];", section("void restore_object_from_buff", "static int save_object_recurse",
+                                                        "restore_object_from_buff"))
+        so = section("int save_object (object_t", "char* save_variable", "save_object")
+        mt = re.search(r'static char tmp_name\[(\d+)\];', so)
+        mf = re.search(r'snprintf \(tmp_name, sizeof\(tmp_name\), "%\.(\d+)s\.tmp", file\);', so)
+        if not mv or not mt or not mf:
+            raise X.TieBroken("site:buffers", "var[] / tmp_name[] / the .tmp format not recognised")
         rc = open(os.path.join(E.REPO, "lib/rc/rc.cpp")).read()
         m2 = re.search(r'"MaxArraySize",\s*\d+,\s*(\d+)\)', rc)
         if not m2:
@@ -182,7 +234,15 @@ class C16(Prop):
             "def saveEscaped : List Nat := %s" % save_esc,
             "/-- bytes svalue_save_size() counts twice (its `if (c == ...)` in the T_STRING case) -/\n"
             "def sizeEscaped : List Nat := %s" % size_esc,
-            "/-- save_svalue(): `(c == '\\n') ? '\\r' : c` -/\ndef swapFrom : Nat := %d\ndef swapTo : Nat := %d" % (swap_from, swap_to)])
+            "/-- save_svalue(): `(c == '\\n') ? '\\r' : c` -/\ndef swapFrom : Nat := %d\ndef swapTo : Nat := %d" % (swap_from, swap_to),
+            "/-- additive constants in the return statements of svalue_save_size() -/\n" +
+            "\n".join("def %s : Nat := %d" % kv for kv in sizes.items()),
+            "/-- restore_string / restore_interior_string / restore_hash_string: an unescaped `from` becomes `to`\n"
+            "    (six sites: %s) -/\ndef restoreSwapFrom : Nat := %d\ndef restoreSwapTo : Nat := %d\n"
+            "def restoreSwapSitesAgree : Bool := %s" % (sites, sites[0][0], sites[0][1], "true" if agree else "false"),
+            "/-- restore_object_from_buff(): `char var[N]` -/\ndef varBufSize : Nat := %s" % mv.group(1),
+            "/-- save_object(): `static char tmp_name[N]` and the `%%.Ns.tmp` format -/\n"
+            "def tmpPrefixMax : Nat := %s\ndef tmpBufSize : Nat := %s" % (mf.group(1), mt.group(1))])
 
     def prepare(self, ctx):
         self.exe = E.compile_harness("c16", [os.path.join(E.VERIF, "harness/c16/c16.c")], extra=["-ldl"])
@@ -536,6 +596,13 @@ class C16(Prop):
                  ("o", "o.o"), ("", ".o"), (".c", ".o"), (".o", ".o"), ("/a", "a.o"), ("/", ".o"), ("c16/data/rel", "c16/data/rel.o"),
                  ("/c16/data/", "c16/data/.o"), ("..c", "..o"), ("x.cc", "x.cc.o"), ("/c16/data/" + "n" * 200, "c16/data/" + "n" * 200 + ".o")]
         mk("file-names", ["set i1 i2 i3 i4 i5"] + ["son %s %d %s" % (hx(n), i % 2, hx(p)) for i, (n, p) in enumerate(names)])
+        deep = "c16/data/" + "/".join(["d" * 60] * 3)
+        longs = []
+        for total in (200, 245, 246, 247, 249, 250, 251, 252, 254, 255, 256, 257, 300):
+            stem = "n" * (total - len(deep) - 1 - 2)
+            longs.append(("/" + deep + "/" + stem, deep + "/" + stem + ".o"))
+        mk("long-paths", ["set i1 i2 i3 i4 i5", "mkd " + deep.encode().hex()] +
+           ["son %s %d %s" % (hx(n), i % 2, hx(p_)) for i, (n, p_) in enumerate(longs)])
         many = [("i", k) if k % 3 else ("s", [0x61 + k]) for k in range(24)]
         mk("many-variables", ["use many", "setm " + vtxt(("a", many)), "so 0", "setm " + vtxt(("a", [("i", 0)] * 24)), "ro 0",
                               "setm " + vtxt(("a", [("i", 7)] * 24)), "ro 1", "so 1", "setm " + vtxt(("a", [("i", 8)] * 24)), "cp 0", "cf 0"])
